@@ -1066,4 +1066,520 @@ theorem computeDelta_subtable {st : SubTable} {im rm : List Nat} {o : SubTable}
         row_sum_eq hok hb hric him hsok regions hsorted hrm hreg coords i hi]
 
 
+/-! ## G. the rewritten DeltaSetIndexMap -/
+
+/-- the scan with a current candidate: it walks over a prefix `a` of equal entries. -/
+theorem scanBack_some (m : Option MapIn) : ∀ (rev : List (Nat × Nat)) (lg : Nat) (lv : Nat × Nat)
+    (r : Option Nat), scanBack m rev (some (lg, lv)) = .ok r →
+    ∃ a b, rev = a ++ b ∧ (∀ p ∈ a, mapGet m p.2 = some lv) ∧
+      r = some ((a.getLast?.map (·.1)).getD lg) := by
+  intro rev
+  induction rev with
+  | nil =>
+    intro lg lv r h
+    simp only [scanBack, pure, Except.pure, Except.ok.injEq, Option.map_some] at h
+    exact ⟨[], [], rfl, by simp, by simp [← h]⟩
+  | cons x rest ih =>
+    intro lg lv r h
+    obtain ⟨gid, old⟩ := x
+    rw [scanBack] at h
+    split at h
+    · cases h
+    · rename_i val hval
+      simp only [] at h
+      split at h
+      · rename_i hne
+        simp only [pure, Except.pure, Except.ok.injEq] at h
+        exact ⟨[], (gid, old) :: rest, rfl, by simp, by simp [← h]⟩
+      · rename_i heq
+        have heq' : val = lv := by simpa using heq
+        obtain ⟨a, b, hab, ha, hr⟩ := ih gid lv r h
+        refine ⟨(gid, old) :: a, b, by simp [hab], ?_, ?_⟩
+        · intro p hp
+          rcases List.mem_cons.mp hp with rfl | hp
+          · simpa [heq'] using hval
+          · exact ha p hp
+        · rw [hr]
+          cases a with
+          | nil => simp
+          | cons y ys =>
+            rw [List.getLast?_cons_cons]
+            cases hgl : (y :: ys).getLast? with
+            | none => simp at hgl
+            | some z => simp
+
+/-- **map_count trimming**: `last_gid` is the new gid of the first element of a suffix of
+`new_to_old_gid_list` on which the map is constant. -/
+theorem scanBack_spec (m : Option MapIn) (l : List (Nat × Nat)) (r : Option Nat)
+    (h : scanBack m l.reverse none = .ok r) :
+    (l = [] ∧ r = none) ∨
+    ∃ pre x suf val, l = pre ++ x :: suf ∧ r = some x.1 ∧
+      (∀ p ∈ x :: suf, mapGet m p.2 = some val) := by
+  rcases List.eq_nil_or_concat l with rfl | ⟨init, z, rfl⟩
+  · left; simp [scanBack, pure, Except.pure] at h; exact ⟨rfl, h.symm⟩
+  · right
+    rw [List.concat_eq_append, List.reverse_append] at h
+    simp only [List.reverse_cons, List.reverse_nil, List.nil_append, List.singleton_append] at h
+    obtain ⟨gid, old⟩ := z
+    rw [scanBack] at h
+    split at h
+    · cases h
+    · rename_i val hval
+      simp only [] at h
+      obtain ⟨a, b, hab, ha, hr⟩ := scanBack_some m _ gid val r h
+      have hinit : init = b.reverse ++ a.reverse := by
+        have := congrArg List.reverse hab
+        simpa using this
+      rcases List.eq_nil_or_concat a with rfl | ⟨a', y, rfl⟩
+      · refine ⟨init, (gid, old), [], val, by simp, by simpa using hr, ?_⟩
+        intro p hp; simp at hp; subst hp; exact hval
+      · refine ⟨b.reverse, y, a'.reverse ++ [(gid, old)], val, ?_, ?_, ?_⟩
+        · rw [List.concat_eq_append, hinit, List.concat_eq_append]; simp
+        · rw [hr, List.concat_eq_append]; simp
+        · intro p hp
+          simp only [List.mem_cons, List.mem_append, List.mem_reverse, List.mem_singleton,
+            List.not_mem_nil, or_false] at hp
+          rcases hp with rfl | hp | rfl
+          · exact ha _ (by simp [List.concat_eq_append])
+          · exact ha _ (by simp [List.concat_eq_append, hp])
+          · exact hval
+
+/-- where an entry of `output_map` comes from. -/
+def Src (m : Option MapIn) (outerMap : List Nat) (innerMaps : List (List Nat)) (l : List (Nat × Nat))
+    (g v : Nat) : Prop :=
+  ∃ old outer inner, (g, old) ∈ l ∧ mapGet m old = some (outer, inner) ∧
+    outer ∈ outerMap ∧ inner ∈ innerMaps.getD outer [] ∧
+    v = outerMap.idxOf outer * 65536 ||| (innerMaps.getD outer []).idxOf inner
+
+theorem low16_or_le (a b : Nat) : (a * 65536 ||| b) % 65536 ≤ b := by
+  have h16 : (65536 : Nat) = 2 ^ 16 := by decide
+  rw [h16, Nat.or_mod_two_pow]
+  have : a * 2 ^ 16 % 2 ^ 16 = 0 := Nat.mul_mod_left _ _
+  rw [this, Nat.zero_or]
+  exact Nat.mod_le _ _
+
+theorem lookup_cons_ne {k g v : Nat} {out : List (Nat × Nat)} (h : k ≠ g) :
+    List.lookup g ((k, v) :: out) = List.lookup g out := by
+  simp [List.lookup, beq_false_of_ne (Ne.symm h)]
+
+/-- the `remap` loop on a list that stays below `map_count` (no `break`). -/
+theorem remapGo_spec (m : Option MapIn) (mc : Nat) (om : List Nat) (ims : List (List Nat)) :
+    ∀ (l : List (Nat × Nat)) (out : List (Nat × Nat)) (mx : Nat) (out' : List (Nat × Nat)) (mx' : Nat),
+    l.Pairwise (fun a b => a.1 < b.1) → (∀ p ∈ l, p.1 % 65536 < mc) →
+    remapGo m mc om ims l out mx = .ok (out', mx') →
+    mx ≤ mx' ∧
+    (∀ g v, out'.lookup g = some v → out.lookup g = some v ∨
+      (Src m om ims l g v ∧ v % 65536 ≤ mx')) ∧
+    (∀ g, (∀ p ∈ l, p.1 ≠ g) → out'.lookup g = out.lookup g) ∧
+    (∀ p ∈ l, ∀ outer inner, mapGet m p.2 = some (outer, inner) → outer < ims.length →
+      outer ∈ om ∧ inner ∈ ims.getD outer [] ∧
+      (ims.getD outer []).idxOf inner ≤ mx' ∧
+      out'.lookup p.1 = some (om.idxOf outer * 65536 ||| (ims.getD outer []).idxOf inner)) := by
+  intro l
+  induction l with
+  | nil =>
+    intro out mx out' mx' _ _ h
+    simp only [remapGo, pure, Except.pure, Except.ok.injEq, Prod.mk.injEq] at h
+    obtain ⟨rfl, rfl⟩ := h
+    exact ⟨Nat.le_refl _, fun g v hv => Or.inl hv, fun g _ => rfl, fun p hp => by cases hp⟩
+  | cons x rest ih =>
+    intro out mx out' mx' hpw hlt h
+    obtain ⟨new, old⟩ := x
+    have ⟨hx, hpw'⟩ := List.pairwise_cons.mp hpw
+    have hnew := hlt (new, old) (by simp)
+    have hlt' : ∀ p ∈ rest, p.1 % 65536 < mc := fun p hp => hlt p (by simp [hp])
+    rw [remapGo] at h
+    have : ¬ new % 65536 ≥ mc := by simpa using hnew
+    simp only [this, if_false] at h
+    split at h
+    · cases h
+    · rename_i outer inner hget
+      split at h
+      · -- an outer index without subtable: skipped
+        rename_i hout
+        have := ih out mx out' mx' hpw' hlt' h
+        refine ⟨this.1, ?_, ?_, ?_⟩
+        · intro g v hv
+          rcases this.2.1 g v hv with h1 | h1
+          · exact Or.inl h1
+          · right
+            obtain ⟨⟨o, ou, inn, h2, h3⟩, h4⟩ := h1
+            exact ⟨⟨o, ou, inn, by simp [h2], h3⟩, h4⟩
+        · intro g hg
+          exact this.2.2.1 g (fun p hp => hg p (by simp [hp]))
+        · intro p hp ou inn hm hou
+          rcases List.mem_cons.mp hp with rfl | hp
+          · simp only [] at hm
+            rw [hget] at hm
+            simp only [Option.some.injEq, Prod.mk.injEq] at hm
+            omega
+          · exact this.2.2.2 p hp ou inn hm hou
+      · rename_i hout
+        split at h
+        · rename_i no ni hno hni
+          obtain ⟨hmo, hio, _⟩ := bmGet_some hno
+          obtain ⟨hmi, hii, _⟩ := bmGet_some hni
+          have := ih _ _ out' mx' hpw' hlt' h
+          refine ⟨by have := this.1; omega, ?_, ?_, ?_⟩
+          · intro g v hv
+            rcases this.2.1 g v hv with h1 | h1
+            · by_cases hg : new = g
+              · subst hg
+                simp only [List.lookup, beq_self_eq_true, Option.some.injEq] at h1
+                right
+                refine ⟨⟨old, outer, inner, by simp, hget, hmo, hmi, by rw [← h1, hio, hii]⟩, ?_⟩
+                rw [← h1]
+                have hmxle : max mx ni ≤ mx' := this.1
+                have : (no * 65536 ||| ni) % 65536 ≤ ni := low16_or_le no ni
+                omega
+              · rw [lookup_cons_ne hg] at h1; exact Or.inl h1
+            · right
+              obtain ⟨⟨o, ou, inn, h2, h3⟩, h4⟩ := h1
+              exact ⟨⟨o, ou, inn, by simp [h2], h3⟩, h4⟩
+          · intro g hg
+            rw [this.2.2.1 g (fun p hp => hg p (by simp [hp]))]
+            exact lookup_cons_ne (hg (new, old) (by simp))
+          · intro p hp ou inn hm hou
+            rcases List.mem_cons.mp hp with rfl | hp
+            · simp only [] at hm
+              rw [hget] at hm
+              simp only [Option.some.injEq, Prod.mk.injEq] at hm
+              obtain ⟨rfl, rfl⟩ := hm
+              refine ⟨hmo, hmi, by rw [← hii]; have := this.1; omega, ?_⟩
+              rw [this.2.2.1 new (fun q hq => by have := hx q hq; simp at this; omega)]
+              simp [List.lookup, hio, hii]
+            · exact this.2.2.2 p hp ou inn hm hou
+        · cases h
+
+
+/-- the loop stops at the first glyph at or beyond `map_count`: only the prefix below it matters. -/
+theorem remapGo_prefix (m : Option MapIn) (mc : Nat) (om : List Nat) (ims : List (List Nat))
+    (rest : List (Nat × Nat)) (hrest : ∀ x ∈ rest.head?, x.1 % 65536 ≥ mc) :
+    ∀ (proc : List (Nat × Nat)) (out : List (Nat × Nat)) (mx : Nat),
+    (∀ p ∈ proc, p.1 % 65536 < mc) →
+    remapGo m mc om ims (proc ++ rest) out mx = remapGo m mc om ims proc out mx := by
+  intro proc
+  induction proc with
+  | nil =>
+    intro out mx _
+    cases rest with
+    | nil => rfl
+    | cons x r =>
+      obtain ⟨new, old⟩ := x
+      have := hrest (new, old) (by simp)
+      simp only [List.nil_append, remapGo]
+      simp [this]
+  | cons x proc ih =>
+    intro out mx hlt
+    obtain ⟨new, old⟩ := x
+    have hlt' : ∀ p ∈ proc, p.1 % 65536 < mc := fun p hp => hlt p (by simp [hp])
+    simp only [List.cons_append, remapGo]
+    split
+    · rfl
+    · split
+      · rfl
+      · split
+        · exact ih _ _ hlt'
+        · split
+          · exact ih _ _ hlt'
+          · rfl
+
+theorem or_decode (no ni : Nat) (hni : ni < 65536) :
+    (no * 65536 ||| ni) / 65536 = no ∧ (no * 65536 ||| ni) % 65536 = ni := by
+  have e : no * 65536 ||| ni = no * 2 ^ 16 + ni := by
+    rw [mul_add_eq_or (k := 16) (by omega) no]
+  rw [e]; omega
+
+theorem beBytes_zero (n : Nat) : beBytes n 0 = List.replicate n 0 := by
+  unfold beBytes
+  apply List.ext_getElem?
+  intro i
+  by_cases hi : i < n
+  · simp [hi]
+  · simp [hi]
+
+theorem pow256 (w : Nat) : 256 ^ w = 2 ^ (8 * w) := by
+  rw [Nat.pow_mul]
+
+/-- an outer index read from a map fits the map's outer bits (`entry_size * 8 - bit_count`). -/
+theorem dsimGet_outer_lt (ef mc : Nat) (data : List Nat) (hb : ∀ b ∈ data, b < 256) (idx outer inner : Nat)
+    (h : dsimGet ef mc data idx = some (outer, inner)) :
+    outer < 2 ^ ((ef / 16 % 4 + 1) * 8 - (ef % 16 + 1)) ∧ outer < 65536 ∧ inner < 65536 := by
+  unfold dsimGet at h
+  simp only [] at h
+  split at h
+  · simp only [Option.some.injEq, Prod.mk.injEq] at h
+    obtain ⟨rfl, rfl⟩ := h
+    refine ⟨?_, Nat.mod_lt _ (by omega), Nat.mod_lt _ (by omega)⟩
+    generalize hes : ef / 16 % 4 + 1 = es
+    generalize hbc : ef % 16 + 1 = bc
+    -- the entry is below 256 ^ es
+    have hval : ∀ (l : List Nat), (∀ b ∈ l, b < 256) → beValue l < 256 ^ l.length := by
+      intro l
+      unfold beValue
+      have : ∀ (l : List Nat) (acc : Nat), (∀ b ∈ l, b < 256) →
+          l.foldl (fun acc b => acc * 256 + b) acc < (acc + 1) * 256 ^ l.length := by
+        intro l
+        induction l with
+        | nil => intro acc _; simp
+        | cons a l ih =>
+          intro acc hl
+          simp only [List.foldl_cons, List.length_cons]
+          have ha := hl a (by simp)
+          have := ih (acc * 256 + a) (fun b hb' => hl b (by simp [hb']))
+          have h1 : acc * 256 + a + 1 ≤ (acc + 1) * 256 := by omega
+          have h2 : (acc * 256 + a + 1) * 256 ^ l.length ≤ (acc + 1) * 256 * 256 ^ l.length :=
+            Nat.mul_le_mul_right _ h1
+          have h3 : (acc + 1) * 256 * 256 ^ l.length = (acc + 1) * 256 ^ (l.length + 1) := by
+            rw [Nat.pow_succ, Nat.mul_assoc, Nat.mul_comm 256]
+          omega
+      intro hl
+      have := this l 0 hl
+      simpa using this
+    have hlen : ((data.drop (min idx (mc - 1) * es)).take es).length ≤ es := by
+      simp [List.length_take]; omega
+    have hbv := hval ((data.drop (min idx (mc - 1) * es)).take es)
+      (fun b hbm => hb b (List.mem_of_mem_drop (List.mem_of_mem_take hbm)))
+    have hle : 256 ^ ((data.drop (min idx (mc - 1) * es)).take es).length ≤ 256 ^ es :=
+      Nat.pow_le_pow_right (by omega) hlen
+    generalize beValue ((data.drop (min idx (mc - 1) * es)).take es) = entry at *
+    have hent : entry < 2 ^ (8 * es) := by rw [← pow256]; omega
+    have : entry / 2 ^ bc % 65536 ≤ entry / 2 ^ bc := Nat.mod_le _ _
+    by_cases hcmp : bc ≤ es * 8
+    · have : entry / 2 ^ bc < 2 ^ (es * 8 - bc) := by
+        rw [Nat.div_lt_iff_lt_mul (Nat.two_pow_pos _), ← Nat.pow_add]
+        have : es * 8 - bc + bc = 8 * es := by omega
+        rw [this]; exact hent
+      omega
+    · have h0 : es * 8 - bc = 0 := by omega
+      rw [h0]
+      have : 2 ^ (8 * es) ≤ 2 ^ bc := Nat.pow_le_pow_right (by omega) (by omega)
+      have : entry / 2 ^ bc = 0 := Nat.div_eq_of_lt (by omega)
+      omega
+  · cases h
+
+
+theorem flatMap_map' {α β γ} (g : α → β) (h : β → List γ) : ∀ (l : List α),
+    (l.map g).flatMap h = l.flatMap (fun i => h (g i)) := by
+  intro l
+  induction l with
+  | nil => rfl
+  | cons a l ih => simp [ih]
+
+theorem serializeMap_ok {p : MapPlan} {mo : MapOut} (h : serializeMap p = .ok mo) (hmc : 0 < p.mapCount) :
+    p.innerBits ≠ 0 ∧ (p.innerBits - 1) / 16 = 0 ∧ (mapWidth p - 1) / 4 = 0 ∧
+    mo.entryFormat = ((mapWidth p - 1) * 16 % 256) ||| (p.innerBits - 1) ∧ mo.mapCount = p.mapCount ∧
+    mo.data = (List.range p.mapCount).flatMap (fun i =>
+      match p.output.lookup i with
+      | none => List.replicate (mapWidth p) 0
+      | some v => beBytes (mapWidth p) ((v / 65536 * 2 ^ p.innerBits ||| v % 65536) % 4294967296)) := by
+  unfold serializeMap at h
+  have hpos : p.mapCount > 0 := hmc
+  simp [hpos, bind, Except.bind, throw, throwThe, MonadExceptOf.throw, pure, Except.pure] at h
+  split at h
+  · cases h
+  · rename_i h1
+    split at h
+    · cases h
+    · rename_i h2
+      simp only [Except.ok.injEq] at h
+      subst h
+      refine ⟨h1, by omega, by omega, rfl, rfl, rfl⟩
+
+theorem entry_ok (om : List Nat) (ims : List (List Nat)) (hom : om.Pairwise (· < ·))
+    (hims : ∀ im ∈ ims, im.length ≤ 65536) (ob ib width mx : Nat) (hib : ib = max (bitLen mx) 1)
+    (hw : ob + ib ≤ 8 * width) (hw4 : width ≤ 4)
+    (outer inner : Nat) (ho : outer ∈ om) (hi : inner ∈ ims.getD outer []) (hol : outer < ims.length)
+    (hob : outer < 2 ^ ob) (ho16 : outer < 65536) (v : Nat)
+    (hv : v = om.idxOf outer * 65536 ||| (ims.getD outer []).idxOf inner) (hmx : v % 65536 ≤ mx) :
+    v / 65536 = om.idxOf outer ∧ v % 65536 = (ims.getD outer []).idxOf inner ∧
+    v % 65536 < 2 ^ ib ∧ v / 65536 < 65536 ∧ v / 65536 * 2 ^ ib + v % 65536 < 256 ^ width ∧
+    (v / 65536 * 2 ^ ib ||| v % 65536) % 4294967296 = v / 65536 * 2 ^ ib + v % 65536 := by
+  have hmem : ims.getD outer [] ∈ ims := by
+    rw [List.getD_eq_getElem?_getD, List.getElem?_eq_getElem hol]; simp
+  have hni : (ims.getD outer []).idxOf inner < 65536 := by
+    have := List.idxOf_lt_length_iff.mpr hi
+    have := hims _ hmem
+    omega
+  have ⟨d1, d2⟩ := or_decode (om.idxOf outer) _ hni
+  rw [← hv] at d1 d2
+  have hno : om.idxOf outer ≤ outer := idxOf_le_of_sorted hom ho
+  have hlt : v % 65536 < 2 ^ ib := by
+    have h1 := lt_two_pow_bitLen mx
+    have h2 : 2 ^ bitLen mx ≤ 2 ^ ib := Nat.pow_le_pow_right (by omega) (by omega)
+    omega
+  have hsum : v / 65536 * 2 ^ ib + v % 65536 < 2 ^ (ob + ib) := by
+    rw [Nat.pow_add]
+    have h1 : v / 65536 + 1 ≤ 2 ^ ob := by omega
+    have h2 : (v / 65536 + 1) * 2 ^ ib ≤ 2 ^ ob * 2 ^ ib := Nat.mul_le_mul_right _ h1
+    rw [Nat.add_mul] at h2
+    omega
+  have hpw : 2 ^ (ob + ib) ≤ 2 ^ (8 * width) := Nat.pow_le_pow_right (by omega) hw
+  have hpw2 : 2 ^ (8 * width) ≤ 2 ^ 32 := Nat.pow_le_pow_right (by omega) (by omega)
+  refine ⟨d1, d2, hlt, by omega, by rw [pow256]; omega, ?_⟩
+  rw [← mul_add_eq_or hlt, Nat.mod_eq_of_lt (by omega)]
+
+/-- **(d) the DeltaSetIndexMap rewrite**: reading the written map at the new gid of any kept glyph
+gives `(outer_map[o], inner_maps[o][i])` where `(o, i)` is what the original map (or the implicit
+`gid ↦ (0, gid)` rule) gives for the old gid — including the glyphs beyond the trimmed `map_count`,
+which reuse the last written entry. -/
+theorem map_rewrite (m : Option MapIn) (n2o : List (Nat × Nat)) (om : List Nat) (ims : List (List Nat))
+    (p p' : MapPlan) (mo : MapOut) (lastGid : Option Nat)
+    (hpw : n2o.Pairwise (fun a b => a.1 < b.1)) (hnew : ∀ q ∈ n2o, q.1 < 65535)
+    (hscan : scanBack m n2o.reverse none = .ok lastGid)
+    (hmc : p.mapCount = match lastGid with
+      | none => 0
+      | some lg => (lg + 1) % 65536)
+    (hremap : remap p m n2o om ims = .ok p') (hser : serializeMap p' = .ok mo)
+    (hom : om.Pairwise (· < ·))
+    (houter : ∀ q ∈ n2o, ∀ outer inner, mapGet m q.2 = some (outer, inner) →
+      outer < ims.length ∧ outer < 2 ^ p.outerBits ∧ outer < 65536)
+    (hims : ∀ im ∈ ims, im.length ≤ 65536) :
+    ∀ q ∈ n2o, ∀ outer inner, mapGet m q.2 = some (outer, inner) →
+      outer ∈ om ∧ inner ∈ ims.getD outer [] ∧
+      dsimGet mo.entryFormat mo.mapCount mo.data q.1 =
+        some (om.idxOf outer, (ims.getD outer []).idxOf inner) := by
+  intro q hq outer inner hget
+  rcases scanBack_spec m n2o lastGid hscan with ⟨rfl, _⟩ | ⟨pre, x, suf, val, hl, hr, hval⟩
+  · cases hq
+  subst hr
+  have hx65 : x.1 < 65535 := hnew x (by rw [hl]; simp)
+  have hmc' : p.mapCount = x.1 + 1 := by rw [hmc]; simp only []; omega
+  -- order
+  rw [hl] at hpw
+  have hpw1 := List.pairwise_append.mp hpw
+  have hpre : ∀ a ∈ pre, a.1 < x.1 := fun a ha => hpw1.2.2 a ha x (by simp)
+  have hsuf : ∀ b ∈ suf, x.1 < b.1 := fun b hb => (List.pairwise_cons.mp hpw1.2.1).1 b hb
+  -- the loop
+  unfold remap at hremap
+  simp only [bind, Except.bind] at hremap
+  split at hremap
+  · cases hremap
+  rename_i res hgo
+  obtain ⟨out, mx⟩ := res
+  simp only [pure, Except.pure, Except.ok.injEq] at hremap
+  subst hremap
+  have hall : ∀ a ∈ pre ++ [x], a.1 % 65536 < p.mapCount := by
+    intro a ha
+    rcases List.mem_append.mp ha with h | h
+    · have := hpre a h; rw [Nat.mod_eq_of_lt (by omega)]; omega
+    · simp at h; subst h; rw [Nat.mod_eq_of_lt (by omega)]; omega
+  have hrest : ∀ y ∈ suf.head?, y.1 % 65536 ≥ p.mapCount := by
+    intro y hy
+    have hys : y ∈ suf := List.mem_of_mem_head? hy
+    have := hsuf y hys
+    have := hnew y (by rw [hl]; simp [hys])
+    rw [Nat.mod_eq_of_lt (by omega)]; omega
+  have hsplit : n2o = (pre ++ [x]) ++ suf := by rw [hl]; simp
+  have hproc : remapGo m p.mapCount om ims (pre ++ [x]) [] 0 = .ok (out, mx) := by
+    rw [← remapGo_prefix m p.mapCount om ims suf hrest (pre ++ [x]) [] 0 hall, ← hsplit]; exact hgo
+  have hpwproc : (pre ++ [x]).Pairwise (fun a b => a.1 < b.1) := by
+    have : ((pre ++ [x]) ++ suf).Pairwise (fun a b => a.1 < b.1) := by simpa using hpw
+    exact (List.pairwise_append.mp this).1
+  obtain ⟨_, hsrc, _, hlook⟩ := remapGo_spec m p.mapCount om ims (pre ++ [x]) [] 0 out mx hpwproc hall hproc
+  have hsub : ∀ a ∈ pre ++ [x], a ∈ n2o := by intro a ha; rw [hsplit]; exact List.mem_append_left _ ha
+  -- serialisation
+  have hmcpos : 0 < ({ p with output := out, innerBits := max (bitLen mx) 1 } : MapPlan).mapCount := by
+    simp [hmc']
+  obtain ⟨_, hib16, hw4, hef, hmcount, hdata⟩ := serializeMap_ok hser hmcpos
+  simp only [mapWidth] at hib16 hw4 hef hdata
+  generalize hib : max (bitLen mx) 1 = ib at *
+  generalize hwd : (p.outerBits + ib + 7) / 8 = width at *
+  have hib1 : 1 ≤ ib := by omega
+  have hib2 : ib ≤ 16 := by omega
+  have hw1 : 1 ≤ width := by omega
+  have hw2 : width ≤ 4 := by omega
+  have hw8 : p.outerBits + ib ≤ 8 * width := by omega
+  -- every written entry comes from a processed glyph
+  have hentry : ∀ g v, out.lookup g = some v → ∃ outer' inner', outer' ∈ om ∧ inner' ∈ ims.getD outer' [] ∧
+      v / 65536 = om.idxOf outer' ∧ v % 65536 = (ims.getD outer' []).idxOf inner' ∧
+      v % 65536 < 2 ^ ib ∧ v / 65536 < 65536 ∧ v / 65536 * 2 ^ ib + v % 65536 < 256 ^ width ∧
+      (v / 65536 * 2 ^ ib ||| v % 65536) % 4294967296 = v / 65536 * 2 ^ ib + v % 65536 := by
+    intro g v hv
+    rcases hsrc g v hv with h0 | ⟨⟨old, outer', inner', hmem, hmg, ho, hi, hveq⟩, hmxv⟩
+    · simp at h0
+    · have ⟨h1, h2, h3⟩ := houter (g, old) (hsub _ hmem) outer' inner' hmg
+      have := entry_ok om ims hom hims p.outerBits ib width mx hib.symm hw8 hw2 outer' inner' ho hi h1 h2 h3 v hveq hmxv
+      exact ⟨outer', inner', ho, hi, this⟩
+  let dec : Nat → Nat × Nat := fun i =>
+    match out.lookup i with
+    | none => (0, 0)
+    | some v => (v / 65536, v % 65536)
+  have hdata' : mo.data = ((List.range p.mapCount).map dec).flatMap
+      (fun e => beBytes width (e.1 * 2 ^ ib + e.2)) := by
+    rw [hdata, flatMap_map']
+    apply flatMap_congr'
+    intro i _
+    simp only [dec]
+    cases hlk : out.lookup i with
+    | none => simp [beBytes_zero]
+    | some v =>
+      obtain ⟨_, _, _, _, _, _, _, _, _, h8⟩ := hentry i v hlk
+      simp only [h8]
+  have hfit : ∀ e ∈ (List.range p.mapCount).map dec,
+      e.2 < 2 ^ ib ∧ e.1 < 65536 ∧ e.1 * 2 ^ ib + e.2 < 256 ^ width := by
+    intro e he
+    obtain ⟨i, _, rfl⟩ := List.mem_map.mp he
+    simp only [dec]
+    cases hlk : out.lookup i with
+    | none => simp; exact ⟨Nat.two_pow_pos _, Nat.pow_pos (by omega)⟩
+    | some v =>
+      obtain ⟨_, _, _, _, _, _, h5, h6, h7, _⟩ := hentry i v hlk
+      exact ⟨h5, h6, h7⟩
+  have hefmt : mo.entryFormat = (width - 1) * 16 + (ib - 1) := by
+    rw [hef, Nat.mod_eq_of_lt (by omega)]
+    have := mul_add_eq_or (k := 4) (b := ib - 1) (by omega) (width - 1)
+    simpa using this.symm
+  have hlen : ((List.range p.mapCount).map dec).length = p.mapCount := by simp
+  have hmcount2 : mo.mapCount = p.mapCount := hmcount
+  have hget' := dsimGet_packed width ib (by omega) hib1 hib2 ((List.range p.mapCount).map dec) hfit q.1
+    (by rw [hlen]; omega)
+  rw [hlen] at hget'
+  have hgoal : dsimGet mo.entryFormat mo.mapCount mo.data q.1 =
+      ((List.range p.mapCount).map dec)[min q.1 (p.mapCount - 1)]? := by
+    rw [hefmt, hmcount2, hdata']; exact hget'
+  rw [hgoal]
+  -- which entry is read
+  have hread : ∀ (a : Nat × Nat), a ∈ pre ++ [x] → mapGet m a.2 = some (outer, inner) →
+      outer ∈ om ∧ inner ∈ ims.getD outer [] ∧
+      ((List.range p.mapCount).map dec)[a.1]? = some (om.idxOf outer, (ims.getD outer []).idxOf inner) := by
+    intro a ha hga
+    have ⟨h1, _, _⟩ := houter a (hsub a ha) outer inner hga
+    obtain ⟨ho, hi, _, hlk⟩ := hlook a ha outer inner hga h1
+    have ha1 : a.1 < p.mapCount := by
+      have h1 := hall a ha
+      have h2 := hnew a (hsub a ha)
+      rwa [Nat.mod_eq_of_lt (by omega)] at h1
+    refine ⟨ho, hi, ?_⟩
+    rw [List.getElem?_map, List.getElem?_range ha1]
+    simp only [Option.map_some, dec, hlk]
+    -- the decoded entry is that of `(outer, inner)` itself
+    have hmem : ims.getD outer [] ∈ ims := by
+      rw [List.getD_eq_getElem?_getD, List.getElem?_eq_getElem h1]; simp
+    have hni : (ims.getD outer []).idxOf inner < 65536 := by
+      have := List.idxOf_lt_length_iff.mpr hi
+      have := hims _ hmem
+      omega
+    have ⟨d1, d2⟩ := or_decode (om.idxOf outer) _ hni
+    rw [d1, d2]
+  rw [hl] at hq
+  rcases List.mem_append.mp hq with hqp | hqx
+  · have hq1 := hpre q hqp
+    have : min q.1 (p.mapCount - 1) = q.1 := by omega
+    rw [this]
+    exact hread q (by simp [hqp]) hget
+  · rcases List.mem_cons.mp hqx with rfl | hqs
+    · have : min q.1 (p.mapCount - 1) = q.1 := by omega
+      rw [this]
+      exact hread q (by simp) hget
+    · have hq1 := hsuf q hqs
+      have : min q.1 (p.mapCount - 1) = x.1 := by omega
+      rw [this]
+      have hvx := hval x (by simp)
+      have hvq := hval q (by simp [hqs])
+      rw [hget] at hvq
+      rw [← hvq] at hvx
+      exact hread x (by simp) hvx
+
+
 end FontVerif.SubsetHvar
